@@ -1778,7 +1778,7 @@ namespace awkward {
         // }
       }
       else {
-        return (std::string("at ") + path + std::string(" (") + raw->classname()
+        return (std::string("at ") + path + std::string(" (") + classname()
                 + std::string("): __array__ = \"char\" only allowed for NumpyArray"));
       }
       return std::string("");
@@ -1833,7 +1833,7 @@ namespace awkward {
         // }
       }
       else {
-        return (std::string("at ") + path + std::string(" (") + raw->classname()
+        return (std::string("at ") + path + std::string(" (") + classname()
                 + std::string("): __array__ = \"byte\" only allowed for NumpyArray"));
       }
       return std::string("");
